@@ -464,6 +464,30 @@ def einsum_loops(eq, A, B):
 
 
 # ------------------------------------------------------------------ the property oracle
+try:
+    import mpmath as _mp
+except Exception:  # noqa: BLE001
+    _mp = None
+
+
+def logistic_reference(z):
+    """the logistic function 1/(1+e^-z) of a complex ndarray, independent of any double-precision formula the code might
+    use: 40-digit arithmetic (mpmath; the exponent range is unbounded, so neither tail overflows), rounded to complex128.
+    Fallback without mpmath: the two-branch stable form in complex128."""
+    z = np.asarray(z, dtype=np.complex128)
+    if _mp is None:
+        pos = z.real >= 0
+        ez = np.exp(np.where(pos, -z, z))
+        return np.where(pos, 1.0 / (1.0 + ez), ez / (1.0 + ez))
+    out = np.empty(z.shape, dtype=np.complex128)
+    with _mp.workdps(40):
+        for k, v in enumerate(z.ravel()):
+            d = 1 + _mp.exp(-_mp.mpc(float(v.real), float(v.imag)))
+            w = 1 / d if d != 0 else _mp.mpc("nan", "nan")
+            out.reshape(-1)[k] = complex(w)
+    return out
+
+
 def np_broadcast(sa, sb):
     try:
         return list(np.broadcast_shapes(tuple(sa), tuple(sb)))
@@ -573,10 +597,7 @@ def oracle_value(case):
         if np_broadcast(sx, sy) is None:
             return ("err", "ValueError")
         z = np.asarray(to_np(x) + 1j * to_np(y))
-        # numerically stable evaluation of the logistic function (independent of the formula used by the code)
-        pos = z.real >= 0
-        ez = np.exp(np.where(pos, -z, z))
-        return ("c", np.where(pos, 1.0 / (1.0 + ez), ez / (1.0 + ez)))
+        return ("c", logistic_reference(z))
     raise ValueError(fn)
 
 
